@@ -50,6 +50,14 @@ def check_value_length_accounting(ctx):
         for a in cls.body:
             if isinstance(a, ast.Assign) and U(a.targets[0]) == 'BYTE_FORMAT' and isinstance(a.value, ast.Constant):
                 fmt = a.value.value
+        folded = fold_write_value(ctx, cls, cname, wv, B, fmt)
+        if folded is not None:
+            n += 1
+            okv, okp, why = folded
+            ctx.check(okv, 'C02.R6', '%s.write_value|value-bytes-equal-length' % cname, site, 'length = len(%s); the writer emits exactly that many value bytes for every length 0..40 (folded)' % B,
+                      'the length field is len(%s) but the writer %s: length, padding and the enclosing structure lengths no longer describe the bytes written' % (B, why))
+            ctx.check(okp, 'C02.R6', '%s.write_value|padding-bytes' % cname, site, 'padding_length zero bytes follow the value', 'the value is not followed by exactly padding_length zero bytes')
+            continue
         loops = [x for x in wv.body if isinstance(x, ast.For)]
         direct = [c for c in walk_local(wv) if isinstance(c, ast.Call) and isinstance(c.func, ast.Attribute) and c.func.attr == 'write' and c.args and U(c.args[0]) == B
                   and not any(isinstance(p, ast.For) for p in _parents(c))]
@@ -92,6 +100,61 @@ def check_value_length_accounting(ctx):
                 okp = len(pa) == 2 and isinstance(pa[0], ast.Constant) and pa[0].value in ('!B', 'B', '!b', 'b', '>B') and isinstance(pa[1], ast.Constant) and pa[1].value == 0
         ctx.check(okp, 'C02.R6', '%s.write_value|padding-bytes' % cname, site, 'padding_length zero bytes follow the value', 'the padding loop does not write padding_length zero bytes')
     ctx.count('variable_length_primitives', n, 2)
+
+
+def fold_write_value(ctx, cls, cname, wv, basis, fmt):
+    """(value-bytes ok, padding ok, why) by folding write_value over a length abstraction for every value length 0..40; None when
+    the method uses something the folder does not model (the spelling-based rule decides then)."""
+    from ..fold import Folder, AbsStr, AbsBytes, AbsNum, Opaque, Unfoldable, Raised, length_models
+    ps = params(wv)
+    if not ps or basis != 'self.value':
+        return None
+    okv, okp, why = True, True, ''
+    try:
+        for n_ in range(0, 41):
+            for pad in sorted({(8 - n_ % 8) % 8, 3}):      # the count the constructor computes, and an arbitrary one
+                written = []
+                f = Folder(models=dict(length_models()), steps=100000)
+                val = AbsStr(n_) if cname == 'TextString' else AbsBytes(n_)
+                selfv = {'__attrs__': ('value', 'length', 'padding_length', 'BYTE_FORMAT', 'PADDING_SIZE'), 'value': val, 'length': n_, 'padding_length': pad,
+                         'BYTE_FORMAT': fmt, 'PADDING_SIZE': 8}
+                env = {'self': selfv, ps[0]: {'__attrs__': ()}}
+                for p_ in ps[1:]:
+                    env[p_] = Opaque('argument')
+                f.models['%s.write' % ps[0]] = lambda x, w_=written: w_.append(x)
+                f.models['%s.extend' % ps[0]] = lambda x, w_=written: w_.append(x)
+                body = [x for x in wv.body if not (isinstance(x, ast.Expr) and isinstance(x.value, ast.Constant))]
+                f.run(body, env)
+                # the stream of pieces: abstract (value) bytes first, then concrete zero bytes
+                total_val = 0
+                zeros = 0
+                inexact = False
+                seen_pad = False
+                for x in written:
+                    if isinstance(x, (bytes, bytearray)):
+                        if set(bytes(x)) - {0}:
+                            okp, why = False, 'emits non-zero constant bytes'
+                        zeros += len(x)
+                        seen_pad = seen_pad or len(x) > 0
+                    elif isinstance(x, AbsStr) and x.kind == 'bytes':
+                        if seen_pad and len(x):
+                            okp, why = False, 'writes value bytes after padding bytes'
+                        total_val += len(x)
+                        inexact = inexact or not x.exact
+                    else:
+                        raise Unfoldable('writes %r' % (x,))
+                if inexact:
+                    okv, why = False, 'writes the encoding of each element without a single-byte pack: an element can contribute several bytes (e.g. a non-ASCII character), while the length field and the padding count elements'
+                elif total_val != n_:
+                    okv, why = False, 'emits %d value bytes for a value of length %d' % (total_val, n_)
+                if zeros != pad:
+                    okp = False
+    except Raised as ex:
+        return None
+    except Unfoldable as ex:
+        ctx.note('C02.R6: %s.write_value is not foldable (%s); spelling-based rule used' % (cname, ex))
+        return None
+    return okv, okp, why
 
 
 def _parents(n):
@@ -230,7 +293,19 @@ def run(ctx):
     # BigInteger: multiple of 8
     bi = prims['BigInteger']
     bread = get_method(bi, 'read')
-    ok8 = any(isinstance(n, ast.BinOp) and isinstance(n.op, ast.Mod) and U(n) == 'self.length % 8' for n in walk_local(bread))
+    consts8 = {}
+    for st_ in bi.body:
+        if isinstance(st_, ast.Assign) and isinstance(st_.targets[0], ast.Name) and isinstance(st_.value, ast.Constant) and isinstance(st_.value.value, int):
+            consts8[st_.targets[0].id] = st_.value.value
+
+    def is8(e):
+        if isinstance(e, ast.Constant):
+            return e.value == 8
+        if isinstance(e, ast.Attribute) and isinstance(e.value, ast.Name) and e.value.id in ('self', 'BigInteger', 'cls'):
+            return consts8.get(e.attr) == 8
+        return False
+    # `self.length % 8` (the 8 possibly a class constant) decides a raise
+    ok8 = any(isinstance(n, ast.BinOp) and isinstance(n.op, ast.Mod) and U(n.left) == 'self.length' and is8(n.right) for n in walk_local(bread))
     ctx.check(ok8, 'C02.R1', 'BigInteger|length-multiple-of-8', '%s:%s BigInteger.read' % (PRIM, bread.lineno), 'reader rejects lengths that are not a multiple of 8', 'BigInteger reader does not enforce a length that is a multiple of 8')
 
     # ---------------- R2
@@ -340,38 +415,55 @@ def run(ctx):
     ctx.need(len(opc) == 1 and opc[0][0].tries, 'unrecognised construct: per-item try in _process_batch')
     tr = opc[0][0].tries[-1]
     psite = m.site(tr, pb)
-    # the locals that carry status / reason / message are those handed to the ResponseBatchItem constructor
-    pbi = [c for c in walk_local(pb) if isinstance(c, ast.Call) and (call_name(c) or '').endswith('ResponseBatchItem')]
-    ctx.need(len(pbi) == 1, 'unrecognised construct: ResponseBatchItem construction in _process_batch')
-    pkw = {k.arg: k.value for k in pbi[0].keywords}
-    for fld in ('result_status', 'result_reason', 'result_message'):
-        ctx.need(isinstance(pkw.get(fld), ast.Name), 'unrecognised construct: %s of the batch item is not a local variable' % fld)
-    v_status, v_reason, v_message = pkw['result_status'].id, pkw['result_reason'].id, pkw['result_message'].id
-    for fld, var in (('result_reason', v_reason), ('result_message', v_message)):
-        defs = [n for n in g.nodes if n.kind == 'stmt' and isinstance(n.stmt, ast.Assign) and isinstance(n.stmt.targets[0], ast.Name) and n.stmt.targets[0].id == var]
-        bad = []
-        n_arm = 0
-        for n in defs:
-            v = n.stmt.value
-            in_arm = any(h in tr.handlers for h in n.handlers)
-            if isinstance(v, ast.Constant) and v.value is None and not in_arm:
-                continue
-            if in_arm:
-                n_arm += 1
-                continue
-            # wrapping of an already set value: x = contents.X(x) under `if x:`
-            if isinstance(v, ast.Call) and len(v.args) == 1 and isinstance(v.args[0], ast.Name) and v.args[0].id == var and any(isinstance(t.stmt, ast.Name) and t.stmt.id == var and l == 'T' for t, l in dominating_edges(g, n)):
-                continue
-            bad.append(n.line)
-        ctx.check(not bad and n_arm == len(tr.handlers), 'C02.R4', 'KmipEngine._process_batch|%s-only-on-failure' % fld, psite, '%s is set in each except arm and nowhere else' % fld,
-                  '%s is assigned outside the failure arms (lines %s) or missing in an arm' % (fld, bad))
-    sdefs = [n for n in g.nodes if n.kind == 'stmt' and isinstance(n.stmt, ast.Assign) and isinstance(n.stmt.targets[0], ast.Name) and n.stmt.targets[0].id == v_status]
-    succ = [n for n in sdefs if enum_member(n.stmt.value) == ('ResultStatus', 'SUCCESS')]
-    oks = len(succ) == 1 and tr in succ[0].tries and not succ[0].handlers and g.dominates(opc[0][0], succ[0])
-    fails = [n for n in sdefs if n.handlers]
-    okf = all(not (enum_member(n.stmt.value) == ('ResultStatus', 'SUCCESS')) for n in fails) and len(fails) == len(tr.handlers)
-    ctx.check(oks and okf, 'C02.R4', 'KmipEngine._process_batch|success-only-on-fall-through', psite, 'SUCCESS is assigned only after the operation returned normally; each except arm sets a failure status',
-              'result_status SUCCESS can be reported for a failed item, or an arm sets no status')
+    # What holds for the result of an item on every path through one iteration of the batch loop (pv/pathsim.py, shared with
+    # C08.R1): a result whose item ran through the try without an exception carries SUCCESS and neither reason nor message;
+    # a result built after an except arm carries a failure status and both a reason and a message.
+    from .c08 import batch_iteration_paths
+    on_ = opc[0][0]
+    loops_ = [n for n in g.nodes if n.kind == 'loop' and isinstance(n.stmt, ast.For) and n.stmt in on_.loops]
+    ctx.need(len(loops_) == 1, 'unrecognised construct: the _process_operation call must sit in exactly one for loop')
+    rets_ = [pn for pn, l in g.exit.pred if isinstance(pn.stmt, ast.Return) and isinstance(pn.stmt.value, ast.Name)]
+    ctx.need(rets_, 'unrecognised construct: _process_batch return')
+    sim, paths = batch_iteration_paths(g, loops_[0], rets_[0].stmt.value.id, tr, params(pb)[1])
+    done = [(n, lab, env) for n, lab, env in paths if (n is loops_[0] or lab == 'break') and env.get('#n', 0) >= 1]
+    ctx.need(done, 'unrecognised construct: no result is appended in the batch loop')
+
+    def wrapped(v):
+        """value of a result field -> (kind, inner): the contents.X(...) wrapper is looked through"""
+        d = sim.describe(v)
+        if v[0] == 'x' and d and d[0] == 'call' and len(d[2]) == 1 and (call_name(d[1]) or '').split('.')[-1] in ('ResultStatus', 'ResultReason', 'ResultMessage'):
+            return d[2][0]
+        return v
+    bad_r, bad_m, bad_s = [], [], []
+    n_fail = n_ok = 0
+    for n, lab, env in done:
+        d = sim.describe(env.get('#item')) if env.get('#item') else None
+        if not d or d[0] != 'call' or not (call_name(d[1]) or '').endswith('ResponseBatchItem'):
+            raise AnalysisError('unrecognised construct: the value appended to the batch response is not a ResponseBatchItem built in the iteration')
+        kws = d[3]
+        st_, re_, me_ = (wrapped(kws.get(k, ('c', None))) for k in ('result_status', 'result_reason', 'result_message'))
+        failed = bool(env.get('#failed'))
+        if failed:
+            n_fail += 1
+            if st_ == ('e', 'ResultStatus', 'SUCCESS') or st_ == ('c', None) or sim.is_pre(st_):
+                bad_s.append('a failed item is reported with status %s' % (st_,))
+            if re_ == ('c', None) or sim.is_pre(re_):
+                bad_r.append('a failed item carries no reason of its own')
+            if me_ == ('c', None) or sim.is_pre(me_):
+                bad_m.append('a failed item carries no message of its own')
+        else:
+            n_ok += 1
+            if st_ != ('e', 'ResultStatus', 'SUCCESS'):
+                bad_s.append('an item that did not fail is reported with status %s' % (st_,))
+            if re_ != ('c', None):
+                bad_r.append('a successful item carries a result reason')
+            if me_ != ('c', None):
+                bad_m.append('a successful item carries a result message')
+    for fld, bad_ in (('result_reason', bad_r), ('result_message', bad_m)):
+        ctx.check(not bad_ and n_fail and n_ok, 'C02.R4', 'KmipEngine._process_batch|%s-only-on-failure' % fld, psite, '%s is present exactly on the paths through an except arm (%d failing, %d successful path classes)' % (fld, n_fail, n_ok),
+                  '%s does not accompany exactly the failed items: %s' % (fld, sorted(set(bad_))[:2]))
+    ctx.check(not bad_s and n_fail and n_ok, 'C02.R4', 'KmipEngine._process_batch|success-only-on-fall-through', psite, 'SUCCESS is reported exactly for items whose operation returned normally; each except arm yields a failure status',
+              'result_status SUCCESS can be reported for a failed item, or a failure status for a successful one: %s' % sorted(set(bad_s))[:2])
     # ---------------- R5
     st = src.tree(SESSION)
     sc = get_class(st, 'KmipSession')
